@@ -6,6 +6,15 @@ measures.  (1) every draw is a member by the independent oracle, in all three co
 must be uniform over the member points; (3) continuous regions: Pearson chi-square of the draws
 against cells of exactly known measure of the *composed* set, two-stage (p < 1e-9 on two
 independent seeds); (4) every cell with expected count >= 50 is hit.
+
+Histories (vf.c03_hist): besides regions built fresh and sampled once, one shared region object
+(a footprint, a polygon used as itself and through its cached `footprint`, an upright solid, a
+disc / rectangle) meets 2-4 partners in sequence -- compositions in both operand orders,
+containsPoint / intersects / size queries and small draws in between, sampling deferred until
+after later operations, an earlier partner met again -- and every composed region sampled in
+that history is judged by the same oracle (1), (3), (4).  A failure that freshly built operands
+reproduce keeps the plain signature; one that only the reused objects show is reported as
+`<cell>:history|<symptom>`.
 """
 
 from __future__ import annotations
@@ -15,6 +24,7 @@ import random
 import numpy as np
 
 from vf import c03_cells as cells
+from vf import c03_hist as hist
 from vf import c16_gen as gen
 from vf import core, rngenum
 from vf import regoracle as ro
@@ -30,9 +40,17 @@ RULE = ("region specs drawn from a harness RNG keyed by (VERIF_SEED, family, rep
         "Path, PointSet, Grid) and compositions with exactly computable measure: polygonal x "
         "polygonal in one plane (all three operations) and in two planes (union), convex solid x "
         "convex solid (mesh Booleans), solid x planar slice, polyline x planar, path x solid, "
-        "point set / grid x anything (exact enumeration of all RNG outcomes).  Non-trivial = a "
-        "composed region, or a primitive with >= 2 cells of different measure (>= 2 member points "
-        "for discrete regions); distinct = SHA-1 of the case JSON.")
+        "point set / grid x anything (exact enumeration of all RNG outcomes).  Plus histories "
+        "(96 quick / 1200 thorough): one shared region OBJECT (footprint, polygon as itself and via "
+        ".footprint, upright box / prism, disc, rectangle) and 2-4 partners met in sequence "
+        "(intersect / union / difference in both operand orders, containsPoint / intersects / size "
+        "probes and small draws in between, deferred sampling, a partner met again); partners of a "
+        "footprint are upright solids / paths whose vertical slabs (0.05 ... 1500 high) lie inside / "
+        "stick out of / cover / clear an earlier slab scaled by 1 ... 1000; upright solid x footprint, "
+        "upright solid x upright solid and path x footprint measures are exact (2D Booleans x "
+        "z-layers).  Non-trivial = a composed region, or a primitive with >= 2 cells of different "
+        "measure (>= 2 member points for discrete regions); a history: >= 2 operations on the "
+        "shared object before a judged sampling; distinct = SHA-1 of the case JSON.")
 ASSUMPTIONS = [
     "vf.regoracle membership (band 1e-3 * size) and vf.c03_cells exact cell measures (shapely on "
     "generator polygons / 1440-gons for discs, half-space volumes for convex solids), both with "
@@ -40,12 +58,16 @@ ASSUMPTIONS = [
     "continuous uniformity is statistical: flagged only if p < 1e-9 on two independent seeds",
     "discrete samplers draw through the `random` module attributes patched by vf.rngenum (a numpy "
     "or continuous draw is a harness error)",
+    "histories: the answers (and exceptions) of the interleaved containsPoint / intersects / size "
+    "probes are not judged here (C16 does), only the draws; the bounded stand-in of a footprint may "
+    "be buffered by <= 1e-3 (documented approximation), far below the detectable effect size",
 ]
 
 PRIMS = ["Box", "Spheroid", "MeshVol", "MeshSurf", "Polygon", "Circle", "Sector", "Rectangle",
          "Polyline", "Path", "PointSet", "Grid"]
 PLANAR = list(gen.PLANAR)
 SLOW = ("Box", "Spheroid", "MeshVol")
+HIST_QUICK, HIST_THOROUGH = 96, 1200
 
 
 def families():
@@ -194,6 +216,8 @@ def chi_square(idx, meas, n_min_exp=5.0):
 
 def judge(case):
     ro.selftest()
+    if case["mode"] == "hist":
+        return judge_hist(case)
     out = core.Outcome()
     cx = base.Ctx(out)
     try:
@@ -383,6 +407,186 @@ def judge_discrete(case, cx, cell, hf, R, rtype, oa, ob, band):
     return out
 
 
+# ------------------------------------------------------------------------------------------
+# histories: the same region objects reused across a sequence of operations
+# ------------------------------------------------------------------------------------------
+
+def make_hist_case(seed, k, n_fast, n_slow):
+    rnd = random.Random(f"C03:hist:{seed}:{k}")
+    case = {"mode": "hist"}
+    case.update(hist.gen_hist(rnd))
+    case.update({"seed": rnd.randrange(1 << 30), "n_fast": n_fast, "n_slow": n_slow})
+    return case
+
+
+def role_spec(shared, role):
+    """Spec of the operand the shared region contributes in this role."""
+    if role == "fp" and shared["kind"] == "Polygon":
+        return {"kind": "Footprint", "poly": shared["poly"]}
+    return shared
+
+
+class History:
+    """Scenic-side state of one history: the shared object and the partners are built once."""
+
+    def __init__(self, case):
+        self.case = case
+        self.S = None
+        self.P = {}
+
+    def shared(self, role):
+        if self.S is None:
+            self.S = gen.build(self.case["shared"])
+        if role == "fp" and self.case["shared"]["kind"] == "Polygon":
+            return self.S.footprint  # (a cached property: the same footprint object every time)
+        return self.S
+
+    def partner(self, j):
+        if j not in self.P:
+            self.P[j] = gen.build(self.case["partners"][j])
+        return self.P[j]
+
+    def operands(self, step):
+        S, P = self.shared(step["role"]), self.partner(step["j"])
+        return (S, P) if step["order"] == "SP" else (P, S)
+
+
+def step_view(case, step):
+    """What judging the result of one composition needs, in the format of a plain case."""
+    ss, ps = role_spec(case["shared"], step["role"]), case["partners"][step["j"]]
+    A, B = (ss, ps) if step["order"] == "SP" else (ps, ss)
+    return {"mode": "comp", "op": step["op"], "A": A, "B": B, "seed": case["seed"] + 104729 * step["r"],
+            "n_fast": case["n_fast"], "n_slow": case["n_slow"]}
+
+
+def judge_step(v, A, B, R=None):
+    """Judge op(A, B) (composed here unless R is given) exactly like a plain composed case.
+    -> (Outcome of this step alone, R)"""
+    sub = core.Outcome()
+    cx = base.Ctx(sub)
+    oa, ob = ro.from_spec(v["A"]), ro.from_spec(v["B"])
+    cell = cell_name(v, oa, ob)
+    if R is None:
+        st, R = cx.call(cell, lambda: getattr(A, v["op"])(B))
+        if st != "ok":
+            return sub, None
+    scales = [s for s in (oa.scale, ob.scale) if np.isfinite(s) and s > 0]
+    band = 1e-3 * max(scales + [1.0])
+    rtype = type(R).__name__
+    sub.cls("result:" + rtype)
+    judge_continuous(v, cx, cell, base.height_feature(oa, ob), R, rtype, oa, ob, band)
+    return sub, R
+
+
+def fresh_symptoms(case, step):
+    """Symptoms of the same composition on freshly built operands (no history)."""
+    h = History(case)
+    A, B = h.operands(step)
+    sub, _ = judge_step(step_view(case, step), A, B)
+    return {sig.split("|", 1)[1] for sig, _ in sub.failures}
+
+
+def judge_hist(case):
+    out = core.Outcome()
+    steps = case["steps"]
+    try:
+        ro.from_spec(case["shared"])
+        for p in case["partners"]:
+            ro.from_spec(p)
+    except ro.OracleError as e:
+        raise core.HarnessError(f"generator produced an invalid spec: {e}")
+    sk = case["shared"]["kind"]
+    out.cls("history:shared=" + sk, "history:reused-operand")
+    roles = {s["role"] for s in steps if "role" in s}
+    if len(roles) == 2:
+        out.cls("history:polygon-as-itself-and-as-footprint")
+    for lab in case["slabs"]:
+        out.cls("history:slab:" + lab)
+    random.seed(case["seed"])
+    np.random.seed(case["seed"] % (1 << 32))
+    cx = base.Ctx(out)
+    h = History(case)
+    st, _ = cx.call("construct:" + sk, lambda: h.shared("self"))
+    if st != "ok":
+        return out
+    results, composed_at, ops_on_shared, judged = {}, {}, 0, 0
+    longest = 0
+
+    def report(step, sub):
+        """Failures of a step go out under the plain cell if fresh operands fail alike,
+        under <cell>:history if only the reused objects do."""
+        for c in sub.classes:
+            out.cls(c)
+        if not sub.failures:
+            return
+        fresh = fresh_symptoms(case, step)
+        for sig, detail in sub.failures:
+            cell, sym = sig.split("|", 1)
+            if sym not in fresh:
+                sig = f"{cell}:history|{sym}"
+                detail = dict(detail, step=step["r"], operations_before=ops_on_shared)
+            cx.fail(sig, **detail)
+
+    for pos, step in enumerate(steps):
+        t = step["t"]
+        if t == "compose":
+            v = step_view(case, step)
+            oa, ob = ro.from_spec(v["A"]), ro.from_spec(v["B"])
+            cell = cell_name(v, oa, ob)
+            sub = core.Outcome()
+            scx = base.Ctx(sub)
+            st, AB = scx.call(cell, lambda: h.operands(step))
+            if st == "ok":
+                st, R = scx.call(cell, lambda: getattr(AB[0], step["op"])(AB[1]))
+            ops_on_shared += 1
+            if st == "ok":
+                results[step["r"]] = (step, AB, R)
+                composed_at[step["r"]] = pos
+                out.cls("history:op:%s:%s" % (step["op"], "shared-first" if step["order"] == "SP" else "shared-second"))
+                if step.get("again"):
+                    out.cls("history:partner-met-again")
+            else:
+                report(step, sub)
+        elif t == "probe":
+            what = step["what"]
+            out.cls("history:probe:" + what)
+            try:
+                if what == "containsPoint":
+                    h.shared(step["role"]).containsPoint(base.vec(step["pt"]))
+                elif what == "intersects":
+                    S, P = h.shared(step["role"]), h.partner(step["j"])
+                    (S.intersects(P) if step["order"] == "SP" else P.intersects(S))
+                elif what == "size":
+                    h.shared(step["role"]).size
+                elif step["r"] in results:
+                    from scenic.core.regions import Region
+
+                    R = results[step["r"]][2]
+                    if type(R).__name__ != "EmptyRegion":
+                        for _ in range(3):
+                            Region.uniformPointIn(R).sample()
+                ops_on_shared += 1
+            except core.CaseTimeout:
+                raise
+            except Exception as e:  # noqa  (the answer of a probe is not C03's business)
+                out.cls("history:probe-raised:" + type(e).__name__)
+        elif t == "judge" and step["r"] in results:
+            cstep, AB, R = results[step["r"]]
+            if any(s["t"] != "judge" for s in steps[composed_at[step["r"]] + 1:pos]):
+                out.cls("history:deferred-sampling")
+            sub, _ = judge_step(step_view(case, cstep), AB[0], AB[1], R)
+            report(cstep, sub)
+            if sub.inconclusive:
+                out.inconclusive = True
+            if "continuous" in sub.classes:
+                judged += 1
+                longest = max(longest, ops_on_shared)
+    out.cls("history:len=%d" % min(longest, 8) if longest < 8 else "history:len=8+")
+    out.cls("history:judged-samplings=%d" % judged)
+    out.nontrivial = judged >= 1 and longest >= 2
+    return out
+
+
 def replay(case):
     return judge(case)
 
@@ -391,8 +595,9 @@ def plan(tier, seed, jobs):
     reps = 2 if tier == "quick" else 12
     n_fast, n_slow = (60000, 2500) if tier == "quick" else (150000, 10000)
     jobs = max(1, jobs)
-    return [{"seed": seed, "reps": reps, "n_fast": n_fast, "n_slow": n_slow, "k": k, "of": jobs}
-            for k in range(jobs)]
+    nhist = HIST_QUICK if tier == "quick" else HIST_THOROUGH
+    return [{"seed": seed, "reps": reps, "n_fast": n_fast, "n_slow": n_slow, "k": k, "of": jobs,
+             "nhist": nhist} for k in range(jobs)]
 
 
 def run_shard(shard, tier):
@@ -405,10 +610,15 @@ def run_shard(shard, tier):
     col = core.Collector(PROP, shard["id"])
     fam = families()
     todo = [(i, r) for r in range(shard["reps"]) for i in range(len(fam))]
+    todo += [("hist", k) for k in range(shard.get("nhist", 0))]
     for n, (i, r) in enumerate(todo):
         if n % shard["of"] != shard["k"]:
             continue
-        case = make_case(shard["seed"], i, r, shard["n_fast"], shard["n_slow"])
+        if i == "hist":
+            # (a history samples up to 5 regions: fewer draws from the fast samplers, same thresholds)
+            case = make_hist_case(shard["seed"], r, shard["n_fast"] // 6, shard["n_slow"])
+        else:
+            case = make_case(shard["seed"], i, r, shard["n_fast"], shard["n_slow"])
         try:
             with core.time_limit(300):
                 o = judge(case)
